@@ -1,4 +1,5 @@
 import EtVerif.Props.C11
+import EtVerif.Props.TrC11
 #print axioms EtVerif.C11.den_mergeSpan
 #print axioms EtVerif.C11.sorted_mergeSpan
 #print axioms EtVerif.C11.wf_mergeSpan
@@ -15,3 +16,8 @@ import EtVerif.Props.C11
 #print axioms EtVerif.C11.rebatch_history
 #print axioms EtVerif.C11.rebatch_invariant
 #print axioms EtVerif.C11.rebatch_invariant_dense
+-- refinement of the translated Go kernels (Gen/Translated.lean, regenerated from /repo) to the model
+#print axioms EtVerif.TrC11.mergeSpan_refines
+#print axioms EtVerif.TrC11.vector_merge_refines
+#print axioms EtVerif.TrC11.go_mergeSpan_overlay
+#print axioms EtVerif.TrC11.go_vector_merge_overlay
